@@ -1,5 +1,6 @@
 """C03 -- Ad, ad, hat, vee and the Lie bracket are the adjoint representation (exact algebraic identities)."""
 import algebra
+import raychk
 
 
 def check(rep, tier, replay=None):
@@ -7,8 +8,15 @@ def check(rep, tier, replay=None):
         "C03: every identity is established as an exact polynomial (rational-function) identity between the two sides, "
         "abstracted path by path from the optimized IR of API-level witnesses into a polynomial domain over the input cells and "
         "compared modulo the unit-norm constraints of the group coefficients.  The result quantifies over all real inputs; "
-        "floating-point rounding of the handful of operations involved is not modelled.  Ad(exp(a)) = expm(ad(a)) is transcendental and not decided.")
+        "floating-point rounding of the handful of operations involved is not modelled.  Ad(exp(a)) = expm(ad(a)) is transcendental: it is checked as a power-series identity along rational rays (rule T.C03).")
     rep.trusted.update(["clang++-16 front end and -O2 pipeline (value-preserving without -ffast-math)", "lib/poly.py exact rational arithmetic", "lib/ir.py"])
     rep.assumptions.append("exact real arithmetic; rounding error of compositions of a few additions/multiplications is not bounded here")
     algebra.check_identities(rep, tier, "C03")
     algebra.check_bracket_ast(rep)
+    rep.explanations.append(
+        "Rule T (engine R, lib/rays.py): the tangent input is abstracted as a = t*a0 along rational rays; the optimized IR of the witness is "
+        "interpreted in the domain of truncated power series in t over exact rationals, and the closed-form path must reproduce the "
+        "defining series coefficient by coefficient to order 8 (Ad(exp(a)) = sum ad(a)^k/k!); polynomial branches of small-angle switches may differ only "
+        "by terms below the tolerance at the largest t that selects them.  A mismatch is a definite violation; agreement along the rays "
+        "examined is a necessary condition of the identity for all a (not a proof).  Rounding is not modelled.")
+    raychk.run(rep, tier, "C03", ["Adexp"], 1e-9)
